@@ -43,9 +43,11 @@ inductive Err where
 
 abbrev Res := Except Err
 
-instance [DecidableEq α] : DecidableEq (Res α) := by
-  intro a b
-  cases a <;> cases b <;> simp <;> exact inferInstance
+instance [DecidableEq α] : DecidableEq (Res α)
+  | .ok a, .ok b => if h : a = b then isTrue (congrArg _ h) else isFalse (fun e => h (Except.ok.inj e))
+  | .error a, .error b => if h : a = b then isTrue (congrArg _ h) else isFalse (fun e => h (Except.error.inj e))
+  | .ok _, .error _ => isFalse (fun e => by cases e)
+  | .error _, .ok _ => isFalse (fun e => by cases e)
 
 /-- `[amlNameLen]byte` -/
 structure Name where
